@@ -134,6 +134,20 @@ BEHAVIOURS: List[Tuple[str, str]] = [
     ("raise-NotImplementedError", "raises"),
     ("raise-UnicodeDecodeError", "raises"),
     ("yield-then-raise-KeyError", "raises"),
+    # "returns nonsense": a register_method handler RETURNS (does not raise) something that is not a (response, session)
+    # pair.  For tool / resource handlers the same values are just arbitrary return values.  None of the values is a
+    # 2-element sequence (that would read as a pair; what is in it is the handler's responsibility).
+    ("nonsense-return-None", "nonsense"),
+    ("nonsense-return-bare-response-object", "nonsense"),
+    ("nonsense-return-3-tuple", "nonsense"),
+    ("nonsense-return-1-tuple", "nonsense"),
+    ("nonsense-return-empty-tuple", "nonsense"),
+    ("nonsense-return-int", "nonsense"),
+    ("nonsense-return-string", "nonsense"),
+    ("nonsense-return-dict", "nonsense"),
+    ("nonsense-return-list-of-3", "nonsense"),
+    ("nonsense-return-opaque-object", "nonsense"),
+    ("yield-then-nonsense-return-None", "nonsense"),
 ]
 # methods whose dispatch reaches no scripted handler are run with these two behaviours only: a behaviour can only show
 # once its handler is reached (the harness fails if a scripted handler is reached there after all)
@@ -186,6 +200,28 @@ async def _behave(b: int, key: str = ""):
         return "late"
     if name == "yield-then-raise":
         raise ValueError("late boom")
+    if name.endswith("nonsense-return-None"):
+        return None
+    if name == "nonsense-return-bare-response-object":
+        from chuk_mcp.protocol.messages.json_rpc_message import create_response
+
+        return create_response(4711, {"bare": True})
+    if name == "nonsense-return-3-tuple":
+        return (None, None, None)
+    if name == "nonsense-return-1-tuple":
+        return (None,)
+    if name == "nonsense-return-empty-tuple":
+        return ()
+    if name == "nonsense-return-int":
+        return 7
+    if name == "nonsense-return-string":
+        return "nonsense"
+    if name == "nonsense-return-dict":
+        return {"jsonrpc": "2.0", "id": 1, "result": {}}
+    if name == "nonsense-return-list-of-3":
+        return [1, 2, 3]
+    if name == "nonsense-return-opaque-object":
+        return _Opaque()
     if name == "raise-KeyError-naming-the-registered-key":
         raise KeyError(key)
     if name in ("raise-KeyError", "yield-then-raise-KeyError"):
@@ -220,6 +256,8 @@ def build_server(b: int):
         (response, session) tuple; nothing for a message without id."""
         reached["n"] += 1
         value = await _behave(b, getattr(message, "method", ""))
+        if BEHAVIOURS[b][1] == "nonsense":
+            return value            # breaks the (response, session) contract by RETURNING
         if getattr(message, "id", None) is None:
             return None, None
         return srv.protocol_handler.create_response(message.id, {"value": repr(value)}), None
@@ -287,6 +325,9 @@ def expected(m: str, params: Any, b: int):
             return "initialize:well-formed", {"R"}
         return "initialize:incomplete-params", {"R", "E-32602", "E-32603"}
     if m in (CUSTOM_REQ, CUSTOM_NOTE):
+        if BEHAVIOURS[b][1] == "nonsense":
+            # the statement: exactly one response carrying the id, result or error (which one is not stated)
+            return "custom-handler:returns-nonsense", ANY_RESPONSE
         return "custom-handler:" + BEHAVIOURS[b][1], _by_behaviour(b)
     if m == "tools/call":
         name = pr.get("name", _MISSING)
@@ -304,7 +345,7 @@ def expected(m: str, params: Any, b: int):
             if uri != RES:
                 return "unknown-resource", {"E-32602"}
             kind = BEHAVIOURS[b][1]
-            return "registered-resource:" + kind, ({"E-32603"} if kind == "raises" else {"R", "E-32603"} if kind == "maybe" else {"R"})
+            return "registered-resource:" + kind, ({"E-32603"} if kind == "raises" else {"R", "E-32603"} if kind in ("maybe", "nonsense") else {"R"})
         return "ill-typed-or-missing-uri", {"E-32602", "E-32603"}
     raise core.HarnessError(f"no expectation for {m}")
 
@@ -768,8 +809,9 @@ def run(tier: str, only=None) -> core.Result:
         "params (absent, null, {}, non-objects, name x arguments x extra members, uri x extra members, initialize / "
         "notification shaped) x handler behaviours (return str/dict/list/None/object/unserialisable; raise Exception, a subclass "
         "with non-ASCII text, KeyError (also naming the registered tool / uri / method), LookupError, IndexError, ValueError, "
-        "TypeError, AttributeError, RuntimeError, AssertionError, OSError, NotImplementedError, UnicodeDecodeError; with and "
-        "without a suspension first) for tool, resource and register_method handlers alike; methods whose dispatch reaches no "
+        "TypeError, AttributeError, RuntimeError, AssertionError, OSError, NotImplementedError, UnicodeDecodeError; return "
+        "something that is not a (response, session) pair: None, bare response object, 0/1/3-tuple, int, str, dict, list, object; "
+        "with and without a suspension first) for tool, resource and register_method handlers alike; methods whose dispatch reaches no "
         "scripted handler run with two behaviours only (checked: no scripted handler is reached there); each case on a fresh "
         "MCPServer.  "
         "evaluations = cases run; judged = accepted by parse_message AND a request/notification by the reference "
@@ -788,8 +830,12 @@ def run(tier: str, only=None) -> core.Result:
         "registered tool: result, -32602 or -32603 accepted; extra params on ping / tools/list / resources/list: result or -32602",
         "initialize with incomplete params: result, -32602 or -32603 accepted (the version rule is C04's subject)",
         "a request-form call of notifications/initialized must get exactly one valid response of any kind",
-        "register_method handlers honour their contract (return a (response, session) tuple or raise Exception); "
-        "handlers returning something else, raising BaseException, or raising exceptions whose __str__ fails are outside the alphabet",
+        "register_method handlers either honour their contract, raise Exception, or RETURN something that is not a pair (None, a bare "
+        "response object, 0/1/3-tuples, int, str, dict, list, object): then a request must still get exactly one valid response with "
+        "its id (any result or error) and a notification None.  Outside the alphabet: a returned 2-element sequence (read as the "
+        "pair, its content is the handler's responsibility - the suite pins (None, None) for an id-bearing request as 'no "
+        "response'), BaseException, exceptions whose __str__ fails",
+        "the nonsense return values, when returned by a tool / resource handler, are ordinary arbitrary results: result or -32603",
         "the session_id argument of handle_message is None throughout (sessions are C19's subject)",
         "overlap part: two in-flight requests never share an id; a handler released before it is started (i.e. one that does "
         "not suspend) is the block part's subject; virtual loop schedules ready callbacks FIFO like stock asyncio",
